@@ -83,6 +83,8 @@ func (d *dateObject) SetTime(time Time.Time) {
 }
 
 func (d *dateObject) Set(epoch float64) {
+	epoch = timeClip(epoch)
+
 	// epoch
 	d.epoch = epochToInteger(epoch)
 
@@ -98,6 +100,14 @@ func (d *dateObject) Set(epoch float64) {
 	} else {
 		d.value = int64Value(d.epoch)
 	}
+}
+
+// timeClip is TimeClip of ECMA-262 15.9.1.14: NaN for a time beyond 8.64e15 ms from the epoch.
+func timeClip(value float64) float64 {
+	if math.IsNaN(value) || math.Abs(value) > 8.64e15 {
+		return math.NaN()
+	}
+	return value
 }
 
 func epochToInteger(value float64) int64 {
